@@ -515,7 +515,16 @@ pub fn apply_ref(op: Op, a: &[Val], u: f64) -> Val {
             // true value plus the rounding level of a well-conditioned evaluation")
             let mut r = smooth(op.func().unwrap(), x, kap, u);
             let n = x.v.abs().nil();
-            let ones: Vec<DD> = (0..=x.v.shape.maxdeg).map(|_| DD::ONE).collect();
+            // the absolute level applies to each DERIVATIVE; a part holds Taylor coefficients
+            let mut fact = 1.0;
+            let ones: Vec<DD> = (0..=x.v.shape.maxdeg)
+                .map(|k| {
+                    if k > 0 {
+                        fact *= k as f64;
+                    }
+                    DD::f(1.0 / fact)
+                })
+                .collect();
             let s = n.apply(&ones);
             for i in 0..r.e.c.len() {
                 let scale = if i == 0 { DD::ONE } else { s.c[i] };
@@ -528,7 +537,17 @@ pub fn apply_ref(op: Op, a: &[Val], u: f64) -> Val {
             // differentiates rational / asymptotic approximants): + kappa_k u sum |N^k|
             let mut r = smooth(op.func().unwrap(), x, kap, u);
             let n = x.v.abs().nil();
-            let ones: Vec<DD> = (0..=x.v.shape.maxdeg).map(|_| DD::ONE).collect();
+            // kappa_k bounds the error of the k-th DERIVATIVE; a part holds Taylor coefficients, so
+            // the majorant is sum |N|^k / k!
+            let mut fact = 1.0;
+            let ones: Vec<DD> = (0..=x.v.shape.maxdeg)
+                .map(|k| {
+                    if k > 0 {
+                        fact *= k as f64;
+                    }
+                    DD::f(1.0 / fact)
+                })
+                .collect();
             let s = n.apply(&ones);
             for (i, m) in x.v.shape.monos.iter().enumerate() {
                 let k = (m.count_ones() as usize).min(BESSEL_ABS_KAPPA.len() - 1);
